@@ -83,7 +83,7 @@ PROPS = {
     },
     "C07": {
         # a result that depends on an earlier *failed* call is a history dependence too
-        "workloads": [("hist", "c07", 2200, 36000, None), ("hist", "c08", 700, 10000, None, ("C08",))],
+        "workloads": [("hist", "c07", 2200, 36000, None), ("hist", "c08", 1500, 12000, None, ("C08",))],
         "rule": (
             "one case = a session: a generated DAG library of 2-6 modules with shared sub-modules, bundle ports and port references, "
             "interleaved with elaborate / to_proto / netlist calls on single targets and lists, repeated, plus refused late edits; "
